@@ -231,6 +231,10 @@ func genCase(t *rapid.T) tcase {
 				s.kind = "unknown"
 			case 1:
 				s.kind = "iqwrapped"
+			case 2:
+				// an element with the local name of a configured feature in a
+				// namespace nothing was advertised in: not a selection of it
+				s.kind = "namesake"
 			}
 			tc.selects = append(tc.selects, s)
 		}
@@ -560,6 +564,8 @@ func execute(tc *tcase) outcome {
 				return []byte(`<nope xmlns="urn:verif:unknown"/>`)
 			case "iqwrapped":
 				return []byte(`<iq type="set" id="x"><` + f.local + ` xmlns="` + f.space + `"/></iq>`)
+			case "namesake":
+				return []byte(`<` + f.local + ` xmlns="urn:verif:elsewhere"/>`)
 			}
 			return []byte(`<` + f.local + ` xmlns="` + f.space + `"/>`)
 		})
@@ -870,7 +876,7 @@ func checkReceiver(tc *tcase, o outcome) string {
 			break
 		}
 		f := tc.feats[s.k]
-		refuse := s.kind == "unknown" || !cur[s.k] || negotiated[s.k] || !f.negotiable
+		refuse := s.kind == "unknown" || s.kind == "namesake" || !cur[s.k] || negotiated[s.k] || !f.negotiable
 		if refuse {
 			if len(r.trace) > expected {
 				e := r.trace[expected]
